@@ -16,6 +16,12 @@
                    real code by `checks/c11.py` on every run and its behaviour documented there.
   The two statements at the top of the file need no hypothesis at all and hold for every carrier,
   `Float` included.
+
+  Newton-TR: `newtonTR_active_eq_fb` (`q_K = p_K`, `q_J` = Steihaug step) and
+  `newtonTR_value_is_full_model`: the returned value is `m(q) = ⟨R_γ, q⟩ + ½⟨q, B q⟩` of the FULL
+  quadratic model (`mFull`: `R_γ = −p/γ`, `B = [H_JJ, f·H_JK; f·H_KJ, I/γ]`, built from the full
+  Hessian operator) at the COMBINED step `q` that `apply` writes.  `newtonTR_model_decrease` is only
+  the reduced, as-coded form.
 -/
 import Alpaqa.Proofs.C11Loop
 import Alpaqa.Proofs.C11Real
@@ -419,10 +425,11 @@ theorem length_ntrG : (ntrG H J γ p hvf).length = J.length := by
   unfold ntrG ntrRhs ntrRhsHess
   split_ifs <;> simp [gather]
 
-/-- **newtonTR_model_decrease**: for a linear symmetric `∇²ψ` the value Newton-TR returns is the model
-    decrease of the combined step, `⟨r_J, q_J⟩ + ½⟨q_J, H_JJ q_J⟩ − ‖p_K‖²/(2γ)`, with `‖q_J‖² ≤ radius²`
-    and a non-positive Steihaug part; it is negative as soon as `γ > 0`.  (`r_J ≠ 0` is Steihaug's forced
-    hypothesis; see the header.) -/
+/-- Reduced (as-coded) form — LEMMA; the property theorem is `newtonTR_value_is_full_model` below.
+    For a linear symmetric `∇²ψ` the value Newton-TR returns is
+    `⟨r_J, q_J⟩ + ½⟨q_J, H_JJ q_J⟩ − ‖p_K‖²/(2γ)` in the *reduced* quantities the code itself works with,
+    with `‖q_J‖² ≤ radius²` and a non-positive Steihaug part; it is non-positive as soon as `γ > 0`.
+    (`r_J ≠ 0` is Steihaug's forced hypothesis; see the header.) -/
 theorem newtonTR_model_decrease (L : Lawful cs) {o : NtrOut α}
     (h : newtonTR cs H J γ p hvf radius epsMach tolMax tolScale tolRoot maxIter = some o)
     (hH : SymLin p.length H) (hn : J.Nodup) (hJ : ∀ j ∈ J, j < p.length)
@@ -503,5 +510,235 @@ example (o : NtrOut ℝ) (eps : ℝ)
   simpa [vget] using this
 
 end examples
+
+/-! ### Newton-TR: the returned value is the full quadratic model at the combined step (audit F8) -/
+section fullmodel
+variable {α : Type} [Field α] [LinearOrder α] [IsStrictOrderedRing α] [RealLike α]
+
+/-- Block `H_AB` of the Hessian operator `H` on `n`-vectors: takes a vector indexed by `B`
+    (scattered into an `n`-vector of zeros), returns the components indexed by `A`. -/
+def blk (H : Vec α → Vec α) (n : Nat) (A B : List Nat) (v : Vec α) : Vec α :=
+  gather A (H (overlay (zeros n) B v))
+
+/-- Gradient of the full quadratic model: the fixed-point residual `R_γ(x) = −p/γ`
+    (`p = x̂ − x` is the forward-backward step; on the inactive set `J` of a box `−p_J/γ = ∇ψ(x)_J`). -/
+def fullG (γ : α) (p : Vec α) : Vec α := smul (-(1 / γ)) p
+
+/-- Hessian of the full quadratic model the direction documents (equation (9) of the PANTR paper with
+    the factor `hessian_vec_factor = f` in front of the coupling term):
+    `B = [ H_JJ , f·H_JK ; f·H_KJ , (1/γ)·I_KK ]`, `K` = complement of `J` — the Hessian of `ψ` on the
+    inactive set, the identity scaled by `1/γ` on the active set (where the proximal mapping is
+    constant), the coupling blocks scaled by `f`. -/
+def fullB (H : Vec α → Vec α) (J : List Nat) (γ f : α) (n : Nat) (v : Vec α) : Vec α :=
+  vadd
+    (overlay (zeros n) J
+      (vadd (blk H n J J (gather J v)) (smul f (blk H n J (complement J n) (gather (complement J n) v)))))
+    (overlay (zeros n) (complement J n)
+      (vadd (smul f (blk H n (complement J n) J (gather J v))) (smul (1 / γ) (gather (complement J n) v))))
+
+/-- The full quadratic model `m(q) = ⟨R_γ, q⟩ + ½⟨q, B q⟩` on `n`-vectors. -/
+def mFull (H : Vec α → Vec α) (J : List Nat) (γ f : α) (p q : Vec α) : α :=
+  dot (fullG γ p) q + 1 / 2 * dot q (fullB H J γ f p.length q)
+
+theorem ntrB_eq_blk (H : Vec α → Vec α) (J : List Nat) (n : Nat) : ntrB H J n = blk H n J J := rfl
+
+/-- Algebraic core: for **any** `J`-vector `s`, the full model at the combined step
+    `q_K = p_K`, `q_J = s` equals the expression `apply` evaluates:
+    `⟨r_J, s⟩ + ½⟨s, H_JJ s⟩ − ‖p_K‖²/(2γ)` with `r_J` the reduced gradient it hands to Steihaug.
+    Needs `H` symmetric: the coupling term enters `r_J` once with factor `f`, the full model twice
+    (`H_JK` and `H_KJ`) at `½`. -/
+theorem mFull_combined (H : Vec α → Vec α) (J : List Nat) (γ f : α) (p s : Vec α)
+    (hH : SymLin p.length H) (hn : J.Nodup) (hJ : ∀ j ∈ J, j < p.length) (hs : s.length = J.length)
+    (hγ : γ ≠ 0) :
+    mFull H J γ f p (overlay (overlay p J (zeros J.length)) J s) =
+      dot (ntrG H J γ p f) s + 1 / 2 * dot s (ntrB H J p.length s) -
+        sqNorm (gather (complement J p.length) p) / (2 * γ) := by
+  set n := p.length with hn'
+  set K := complement J n with hK
+  have hKn : K.Nodup := complement_nodup J n
+  have hKlt : ∀ j ∈ K, j < n := complement_lt J n
+  set q0 := overlay p J (zeros J.length) with hq0
+  set q := overlay q0 J s with hq
+  have lq0 : q0.length = n := by rw [hq0, length_overlay']
+  have lq : q.length = n := by rw [hq, length_overlay', lq0]
+  have hqJ : gather J q = s := gather_overlay_self q0 J s hn (by rw [lq0]; exact hJ) hs
+  have hqK : gather K q = gather K p := by
+    have h1 := gather_overlay_compl q0 J s
+    have h2 := gather_overlay_compl p J (zeros J.length)
+    rw [lq0] at h1
+    rw [hK, hq, h1, hq0, h2]
+  set pK := gather K p with hpK
+  set pJ := gather J p with hpJ
+  have lpK : pK.length = K.length := length_gather K p
+  have lpJ : pJ.length = J.length := length_gather J p
+  -- scattered parts
+  have lSJ : ∀ v : Vec α, (overlay (zeros n) J v).length = n := fun v => by rw [length_overlay', length_zeros]
+  have lSK : ∀ v : Vec α, (overlay (zeros n) K v).length = n := fun v => by rw [length_overlay', length_zeros]
+  have lblk : ∀ (A B : List Nat) (v : Vec α), (blk H n A B v).length = A.length :=
+    fun A B v => length_gather A _
+  -- the two adjoint identities
+  have adjJ : ∀ (x v : Vec α), x.length = n → v.length = J.length →
+      dot x (overlay (zeros n) J v) = dot (gather J x) v :=
+    fun x v hx hv => (gather_scatter_adjoint n J hn hJ x v hx hv).symm
+  have adjK : ∀ (x v : Vec α), x.length = n → v.length = K.length →
+      dot x (overlay (zeros n) K v) = dot (gather K x) v :=
+    fun x v hx hv => (gather_scatter_adjoint n K hKn hKlt x v hx hv).symm
+  -- ⟨q, B q⟩
+  have hB : dot q (fullB H J γ f n q) =
+      dot s (blk H n J J s) + f * dot s (blk H n J K pK) + f * dot pK (blk H n K J s)
+        + 1 / γ * dot pK pK := by
+    unfold fullB
+    rw [← hK, hqJ, hqK]
+    rw [dot_vadd_right _ _ _ (by rw [lSJ, lSK]),
+        adjJ q _ lq (by rw [length_vadd, lblk, length_smul, lblk, min_self]),
+        adjK q _ lq (by rw [length_vadd, length_smul, lblk, length_smul, lpK, min_self]),
+        hqJ, hqK,
+        dot_vadd_right _ _ _ (by rw [lblk, length_smul, lblk]),
+        dot_vadd_right _ _ _ (by rw [length_smul, lblk, length_smul, lpK]),
+        dot_smul_right, dot_smul_right, dot_smul_right]
+    ring
+  -- symmetry of the coupling blocks
+  have hsym : dot pK (blk H n K J s) = dot s (blk H n J K pK) := by
+    unfold blk
+    rw [dot_comm pK, gather_scatter_adjoint n K hKn hKlt _ pK (hH.len _ (lSJ s)) lpK,
+        dot_comm s, gather_scatter_adjoint n J hn hJ _ s (hH.len _ (lSK pK)) hs,
+        ← hH.sym _ _ (lSJ s) (lSK pK), dot_comm]
+  -- ⟨p, q⟩
+  have hpq : dot p q = dot pJ s + dot pK pK := by
+    have hpart := scatter_partition J n q lq
+    rw [hqJ, ← hK, hqK] at hpart
+    rw [← hpart, dot_vadd_right _ _ _ (by rw [lSJ, lSK]), adjJ p s rfl hs, adjK p pK rfl lpK]
+  -- the reduced gradient
+  have hq0K : q0 = overlay (zeros n) K pK := overlay_zero_eq_scatterK J p
+  have hG : dot (ntrG H J γ p f) s = -(1 / γ) * dot pJ s + f * dot s (blk H n J K pK) := by
+    rw [newtonTR_reduced_gradient]
+    by_cases hf : f = 0
+    · simp only [hf, ne_eq, not_true_eq_false, if_false, zero_mul, add_zero]
+      rw [dot_smul_left]
+    · simp only [ne_eq, hf, not_false_eq_true, if_true]
+      rw [dot_vadd_left _ _ _ (by rw [length_smul, length_smul, length_gather, length_gather]),
+          dot_smul_left, dot_smul_left, ← hq0, hq0K, dot_comm s (blk H n J K pK)]
+      rfl
+  unfold mFull fullG
+  rw [dot_smul_left, hpq, ← hn', hB, hsym, hG, ntrB_eq_blk, sqNorm_eq_dot]
+  field_simp; ring
+
+theorem overlay_overlay (base : Vec α) (J : List Nat) (w w' : Vec α) :
+    overlay (overlay base J w) J w' = overlay base J w' := by
+  unfold overlay
+  simp only [List.length_map, List.length_range]
+  apply List.map_congr_left
+  intro i hi
+  have hin : i < base.length := List.mem_range.mp hi
+  cases hf : J.findIdx? (· == i) with
+  | some k => rfl
+  | none =>
+    have := vget_overlay base J w i hin
+    rw [hf] at this
+    exact this
+
+variable {cs : α → α → α} {H : Vec α → Vec α} {J : List Nat} {γ : α} {p : Vec α}
+  {hvf radius epsMach tolMax tolScale tolRoot : α} {maxIter : Int}
+
+/-- **newtonTR_value_is_full_model** (audit F8): the value `NewtonTRDirection::apply` returns is the
+    value `m(q) = ⟨R_γ, q⟩ + ½⟨q, B q⟩` of the *full* quadratic model at the *combined* step `q` it
+    writes (`q_K = p_K` the forward-backward step on the active set, `q_J` = the Steihaug step), where
+    `R_γ = −p/γ` and `B = [H_JJ, f·H_JK; f·H_KJ, I/γ]` is built from the full Hessian operator
+    `H = ∇²ψ(x)` (`f = hessian_vec_factor`) — not from the reduced quantities the code works with.
+    It is the model *decrease*: `m(0) = 0`.  Moreover the combined step is at least as good, in this
+    model, as the pure active-set step `q_K = p_K, q_J = 0`.
+    Hypotheses: `H` linear and symmetric (the coupling term is in the code once, in the model twice);
+    `J` duplicate-free and in range (what `eval_inactive_indices_res_lna` returns); `γ ≠ 0` (guard:
+    the code divides by `γ`; PANTR passes `γ > 0`); `0 < radius` and `r_J ≠ 0` are Steihaug's
+    hypotheses (at `r_J = 0` the real code returns NaN, see the header). -/
+theorem newtonTR_value_is_full_model (L : Lawful cs) {o : NtrOut α}
+    (h : newtonTR cs H J γ p hvf radius epsMach tolMax tolScale tolRoot maxIter = some o)
+    (hH : SymLin p.length H) (hn : J.Nodup) (hJ : ∀ j ∈ J, j < p.length) (hγ : γ ≠ 0)
+    (hrad : 0 < radius) (hg0 : ntrG H J γ p hvf ≠ zeros (ntrG H J γ p hvf).length) :
+    o.val = mFull H J γ hvf p o.q ∧
+    mFull H J γ hvf p o.q ≤ mFull H J γ hvf p (overlay p J (zeros J.length)) ∧
+    mFull H J γ hvf p (overlay p J (zeros J.length))
+      = -(sqNorm (gather (complement J p.length) p) / (2 * γ)) := by
+  have hB := newtonTR_operator_symLin (H := H) hH hn hJ
+  have hlen := length_ntrG (H := H) (J := J) (γ := γ) (p := p) (hvf := hvf)
+  obtain ⟨h1, h2⟩ := newtonTR_return h
+  have hq : o.q = overlay (overlay p J (zeros J.length)) J o.cg.s := by
+    rw [newtonTR_eq] at h
+    split_ifs at h with hc
+    simp only [Option.some.injEq] at h
+    subst h; rfl
+  have hsl : o.cg.s.length = J.length := by
+    rw [h1]; exact (step_in_region tolMax tolScale tolRoot maxIter L hB hlen hrad hg0).1
+  have hval : o.val = mFull H J γ hvf p o.q := by
+    rw [hq, mFull_combined H J γ hvf p o.cg.s hH hn hJ hsl hγ, h2]
+    congr 1
+    rw [h1]
+    exact model_value_exact tolMax tolScale tolRoot maxIter L hB hlen hrad hg0
+  have hz : mFull H J γ hvf p (overlay p J (zeros J.length))
+      = -(sqNorm (gather (complement J p.length) p) / (2 * γ)) := by
+    have := mFull_combined H J γ hvf p (zeros J.length) hH hn hJ (length_zeros _) hγ
+    rw [overlay_overlay] at this
+    rw [this]
+    simp
+  refine ⟨hval, ?_, hz⟩
+  rw [← hval, hz, h2]
+  have : o.cg.q ≤ 0 := by
+    rw [h1]; exact value_le_zero tolMax tolScale tolRoot maxIter L hB hlen hrad hg0
+  linarith
+
+end fullmodel
+
+section fullexamples
+open Alpaqa.C11
+
+/-- The full model is not the reduced expression in disguise: on the instance of the examples below
+    (`∇²ψ = [[2,1],[1,−3]]` indefinite, `J = {1}`, `K = {0}`, `p = (1,2)`, `γ = 1`, factor 1) the coupling
+    block is `H_JK = (1) ≠ 0`, `B = [[1/γ, 1],[1, −3]]`, `R_γ = (−1,−2)`, and for the combined step
+    `q = (p_K, t) = (1, t)`: `m(q) = −½ − t − (3/2)t²` (the `−t` is `−2t` from the gradient plus `+t` from
+    the two coupling entries at `½`). -/
+example (t : ℚ) : mFull (matVec ([[2, 1], [1, -3]] : List (Vec ℚ))) [1] 1 1 [1, 2] [1, t]
+    = -1 / 2 - t - 3 / 2 * t ^ 2 := by
+  simp [mFull, fullG, fullB, blk, gather, overlay, complement, matVec, zeros, vget, List.range,
+    List.range.loop, dot_cons, List.findIdx?, List.findIdx?.go]
+  ring
+
+example : blk (matVec ([[2, 1], [1, -3]] : List (Vec ℚ))) 2 [1] [0] [1] = [1] := by
+  simp [blk, gather, overlay, matVec, zeros, vget, List.range, List.range.loop, dot_cons,
+    List.findIdx?, List.findIdx?.go]
+
+/-- **All hypotheses of `newtonTR_value_is_full_model` at once, with the call itself exhibited** (no
+    hypothesis left): indefinite `∇²ψ`, `J = {1}`, `K = {0}` (`|J| ≥ 1`, `|K| ≥ 1`, coupling `≠ 0`),
+    `p = (1,2)`, `γ = 1`, `hessian_vec_factor = 1`, `radius = 1 ≥ eps = 2⁻⁵²`. -/
+example : ∃ o : NtrOut ℝ,
+    newtonTR csReal (matVec [[2, 1], [1, -3]]) [1] 1 [1, 2] 1 1 (1 / 2 ^ 52) 1 1 (1 / 2) 1 = some o ∧
+    o.val = mFull (matVec [[2, 1], [1, -3]]) [1] 1 1 [1, 2] o.q ∧
+    vget o.q 0 = 1 ∧ o.val ≤ -(1 / 2) := by
+  have hsome : ∃ o : NtrOut ℝ,
+      newtonTR csReal (matVec [[2, 1], [1, -3]]) [1] 1 [1, 2] 1 1 (1 / 2 ^ 52) 1 1 (1 / 2) 1 = some o := by
+    rw [newtonTR_eq]
+    have h1 : ntrRadiusNotFinite (1 : ℝ) = false := by simp [ntrRadiusNotFinite, RealLike.isFinite]
+    have h2 : ntrRadiusTooSmall (1 : ℝ) (1 / 2 ^ 52) = false := by
+      simp only [ntrRadiusTooSmall, decide_eq_false_iff_not, not_lt]
+      norm_num
+    rw [h1, h2]
+    simp
+  obtain ⟨o, ho⟩ := hsome
+  have hg : ntrG (matVec ([[2, 1], [1, -3]] : List (Vec ℝ))) [1] 1 [1, 2] 1 ≠
+      zeros (ntrG (matVec ([[2, 1], [1, -3]] : List (Vec ℝ))) [1] 1 [1, 2] 1).length := by
+    rw [ntrG_example]; simp [zeros]
+  obtain ⟨hv, hle, hz⟩ := newtonTR_value_is_full_model lawful_real ho (symLin_indefinite ℝ)
+    (by decide) (by decide) one_ne_zero one_pos hg
+  refine ⟨o, ho, hv, ?_, ?_⟩
+  · have := (newtonTR_active_eq_fb ho).2.1 0 (by decide)
+    simpa [vget] using this
+  · rw [hv]
+    refine le_trans hle ?_
+    rw [hz]
+    have hK : gather (complement [1] ([1, 2] : Vec ℝ).length) ([1, 2] : Vec ℝ) = [1] := by
+      simp [gather, complement, vget, List.range, List.range.loop]
+    rw [hK]
+    norm_num [sqNorm_eq_dot, dot_cons]
+
+end fullexamples
 
 end Alpaqa.Props.C11
